@@ -97,6 +97,8 @@ func (m *CPU) fetchInstruction(pc int32) int32 {
 
 func (m *CPU) decode(app risc.Application, pc int32) risc.InstructionRunner {
 	r := app.Instructions[pc/4]
+	// Clear forward (the program may have been run by a forwarding machine)
+	r.Forward(risc.Forward{})
 	m.cycle += cyclesDecode
 	return r
 }
